@@ -24,6 +24,7 @@ EXPLANATION = (
     "whose own CFG always resets. Over lang/subroutine.py: instantiate() iterates all instructions and all operands without early "
     "exit, replaces Template operands by the supplied values, rebuilds with instr.from_operands and stores the app id. Over "
     "lang/instr: a from_operands that admits Template at a position converts an int at that position to an Immediate."
+    ' C06.S: compile() and the flush path convert the proto-subroutine through the same single builder call, which assembles and then applies the configured transpiler.'
 )
 LEVEL_TEXT = (
     "Static analysis, partial: the connection-state clause (compile leaves the builder as flush does) is decided on all paths of all "
